@@ -436,6 +436,14 @@ TRANSFORMERS = [
     (r"^std::mem::(take|replace)$", _id()),
     (r"^std::boxed::Box::<T>::new$", _id()),
 ]
+# identity steps that create a *new object* (value copies): crossed when asking "where does this
+# value come from", not when asking "which storage does this reference alias"
+COPYING = re.compile(
+    r"^(std::clone::Clone::clone|std::borrow::ToOwned::to_owned|std::convert::(Into::into|From::from)|"
+    r"std::path::Path::to_path_buf|std::string::ToString::to_string|core::str::<impl str>::(to_owned|to_string)|"
+    r"(std|alloc)::slice::<impl \[T\]>::to_vec|std::option::Option::<&(mut )?T>::(cloned|copied)|"
+    r"std::option::Option::<T>::(cloned|copied)|std::string::String::into_bytes|std::mem::(take|replace)|"
+    r"std::option::Option::<T>::take)$")
 _TRANS_RE = [(re.compile(p), f) for p, f in TRANSFORMERS]
 _trans_cache = {}
 
@@ -497,7 +505,8 @@ class BodyIndex:
                     if not (ty.startswith("&mut ") or ty.startswith("std::pin::Pin<&mut ")
                             or ty.startswith("*mut ")):
                         continue
-                    _, visited = self._resolve(a.place.local, norm_path(a.place), IDENT, want_visited=True, at=b.i)
+                    _, visited = self._resolve(a.place.local, norm_path(a.place), IDENT, want_visited=True, at=b.i,
+                                               alias_only=True)
                     for (l, p, _a) in visited:
                         m.setdefault(l, []).append((b.i, p, ai))
             self._mut = m
@@ -526,7 +535,14 @@ class BodyIndex:
         _, visited = self._resolve(place.local, norm_path(place), IDENT, want_visited=True, at=at)
         return {(l, q) for (l, q, _a) in visited}
 
-    def _resolve(self, local, path, level, want_visited=False, at=None):
+    def _resolve(self, local, path, level, want_visited=False, at=None, alias_only=False):
+        self._alias_only = alias_only
+        try:
+            return self._resolve2(local, path, level, want_visited, at)
+        finally:
+            self._alias_only = False
+
+    def _resolve2(self, local, path, level, want_visited=False, at=None):
         body = self.body
         out = set()
         seen = set()
@@ -677,6 +693,8 @@ class BodyIndex:
         body = self.body
         tr = transformer_for(term.callee)
         crossed = False
+        if tr is not None and getattr(self, "_alias_only", False) and COPYING.search(term.callee.path):
+            tr = None
         if tr is not None:
             res = tr(tuple(rest), term)
             if res == "DEAD":
